@@ -131,19 +131,29 @@ func vbuLetter() string {
 	return s
 }
 
-// vbuCheckCalls: calls must be exactly the (cur, prev) pairs listed in want (each once, any order).
+// vbuCheckCalls: every (cur, prev) pair of want is passed to the function at least once, and no other pair ever is.
+// (Calling the function twice for a pair only duplicates annotations, which the annotation set de-duplicates; the
+// property needs "matched pairs are checked, unmatched ones are not".)
 func vbuCheckCalls(calls, want []vbuCall) bool {
-	if len(calls) != len(want) {
-		return false
-	}
 	for i := 0; i < len(want); i++ {
-		n := 0
+		found := false
 		for j := 0; j < len(calls); j++ {
 			if calls[j].cur == want[i].cur && calls[j].prev == want[i].prev {
-				n++
+				found = true
 			}
 		}
-		if n != 1 {
+		if !found {
+			return false
+		}
+	}
+	for j := 0; j < len(calls); j++ {
+		found := false
+		for i := 0; i < len(want); i++ {
+			if calls[j].cur == want[i].cur && calls[j].prev == want[i].prev {
+				found = true
+			}
+		}
+		if !found {
 			return false
 		}
 	}
